@@ -25,6 +25,8 @@ var c16Guards = []c16Guard{
 	{"proposalTotalReactor", "consensus/reactor.go", "ConsensusReactor", "Receive", "ps.SetHasProposal(msg.Proposal)", []string{"msg.Proposal == nil", "msg.Proposal.BlockPartsHeader.Total <= 0", "msg.Proposal.BlockPartsHeader.Total > maxParts"}},
 	{"blockComponentsNil", "consensus/state.go", "ConsensusState", "addProposalBlockPart", "cs.ProposalBlock.Recover != cs.recover", []string{"cs.ProposalBlock.Header == nil", "cs.ProposalBlock.Data == nil", "cs.ProposalBlock.LastCommit == nil"}},
 	{"faultEvidenceEmptyCommitState", "consensus/state.go", "ConsensusState", "checkFaultValEvidence", "lastCommit.FirstPrecommit().Round", []string{"lastCommit == nil", "lastCommit.FirstPrecommit() == nil"}},
+	{"faultEvidenceNilKeysState", "consensus/state.go", "ConsensusState", "checkFaultValEvidence", "cs.LastValidators.GetProposer().Address.String()", []string{"ev.Proposer == nil", "ev.FaultVal == nil"}},
+	{"faultEvidenceNilKeysValidation", "consensus/validation.go", "", "VerifyFaultValEvidence", "status.LastValidators.GetProposer().Address.String()", []string{"fvi.Proposer == nil", "fvi.FaultVal == nil"}},
 	{"lastCommitNilFirstHeight", "consensus/state.go", "ConsensusState", "addVote", "cs.LastCommit.AddVote(vote)", []string{"cs.LastCommit == nil"}},
 	{"faultEvidenceEmptyCommitValidation", "consensus/validation.go", "", "VerifyFaultValEvidence", "lastCommit.FirstPrecommit().Round", []string{"lastCommit == nil", "lastCommit.FirstPrecommit() == nil"}},
 }
